@@ -69,8 +69,12 @@ def step (s : St) (w : List String) : St × String :=
       if off ≤ mx ∧ f.length ≤ mx ∧ mx ≠ 0 then
         let r := Ring.make mx off f
         let e : Msg := ⟨[], []⟩
+        -- the queue's data lies in at most two parts, the first ends with the storage; without a second iovec
+        -- a stretch that starts in the first part and runs beyond it cannot be handed out
+        let low := Nat.min (mx - off) f.length
+        let wraps := pos < low ∧ low < pos + take
         let sp := match Flat.get f pos take with
-          | some d => s!"ok ; {toHex d}" ++ (if novec then " || refused ; -" else "")
+          | some d => if novec ∧ wraps then "refused ; -" else s!"ok ; {toHex d}"
           | none => "refused ; -"
         match (if novec then Msg.getNoVec r pos take else Msg.get r pos take) with
         | .ok m => ({ m := some m }, s!"R ok{tail e m (toString m.clen)} | S {sp}")
@@ -95,6 +99,8 @@ def step (s : St) (w : List String) : St × String :=
         | none => (s, "bad-op")
       | "len", [] =>
         (s, s!"R ret={m.length}{tail m m "0"} | S ret={Flat.length d} ; {toHex d}")
+      | "guards", [] =>
+        (s, s!"R guards=-1,-1,-1,-1,-1,-1,-1 efault=7{tail m m "0"} | S guards=-1,-1,-1,-1,-1,-1,-1 efault=7 ; {toHex d}")
       | "chr", [b] =>
         match parseByte b with
         | some b => (s, posLine m (Iov.memchr m.iov b) (Flat.chr d b))
